@@ -75,12 +75,58 @@ package panos
 // ---- C18: rules of the raw / IPv6 part: not marked ones first (top), marked <APPEND> ones last ----
 //vc:ghost var panMergeLen int
 //vc:ghost var panSrcLen int
+//vc:ghost var panLinked bool
 //vc:func (*PanConfig).MergeSpoc$1
+// processVsysPairs calls the function with v1 == nil for a vsys of the other part only, with v2 == nil for one of this part only
+//vc:  nullable v1, v2
+//vc:  hypothesis v1 != nil || v2 != nil
 //vc:  init panMergeLen = 0
 //vc:  init panSrcLen = 0
 //vc:  assign at "v1.Services = append(v1.Services, v2.Services...)" panMergeLen = len(v1.Rules)
 //vc:  assign at "v1.Services = append(v1.Services, v2.Services...)" panSrcLen = len(v2.Rules)
 //vc:  invariant[C18] 1 "for _, r := range v2.Rules" -1 <= rangeindex && rangeindex < panSrcLen && len(top) + len(v1.Rules) == panMergeLen + rangeindex + 1 && panMergeLen <= len(v1.Rules) &&
 //vc:      (forall j int :: 0 <= j && j < len(top) ==> top[j].Append == nil)
+// a vsys that exists only in the raw / IPv6 part is linked into the merged
+// configuration as the last vsys of its first device entry, under its name
+//vc:  init panLinked = false
+//vc:  assign after "d1.Vsys = append(d1.Vsys, v1)" panLinked = len(callresult) > 0 && callresult[len(callresult) - 1] == v1 && v1.Name == v2.Name && p1 != nil && p1.Devices != nil && len(p1.Devices.Entries) > 0 && p1.Devices.Entries[0] == d1
+//vc:  ensures[C18] @newVsysLinked v1 == nil && v2 != nil ==> panLinked
 //vc:  assert[C18] at "v1.Rules = append(top, v1.Rules...)" @noRuleLost len(top) + len(v1.Rules) == panMergeLen + panSrcLen
 //vc:  assert[C18] at "v1.Rules = append(top, v1.Rules...)" @onlyUnmarkedRulesOnTop forall j int :: 0 <= j && j < len(top) ==> top[j].Append == nil
+
+// ---- C17: password and API key never reach the session log or an error text ----
+// httpGet hands its URL to net/http, whose transport errors quote it; a
+// non-200 reply becomes an error quoting the reply body. Replies are assumed
+// secret free except the <key> element of the keygen reply.
+//vc:func (*State).httpGet
+//vc:  trusted[C17]
+//vc:  ensures[C17] err != nil ==> (onlyPass(uri) ==> onlyPass(errText(err))) && (onlyKeyParam(uri) ==> onlyKeyParam(errText(err)))
+//vc:  ensures[C17] onlyKeyElem(bytes(result0))
+// replies to requests that carry the key (all but keygen) do not repeat it
+//vc:  ensures[C17] onlyKeyParam(uri) ==> secretFree(bytes(result0))
+
+// XML decoding errors name element types and positions, not element content
+//vc:func parseAPIKey
+//vc:  trusted[C17]
+//vc:  ensures[C17] err != nil ==> cleanAny(err)
+
+//vc:func (*State).getAPIKey
+//vc:  hypothesis[C17] secretFree(addr) && secretFree(user)
+//vc:  assume at "params.Set("#1 valsState[arg0] == 0
+//vc:  ensures[C17] @errorTextMasked err != nil ==> cleanAny(err)
+
+// every API request: prefix (with the key) + query; the logged URL is masked,
+// the logged reply is device data
+// the hypothesis on apiRE below is backed by this scan of the package initializer
+//vc:globalconst[C17] apiRE regexp.MustCompile "[?]key=.*?&"
+//vc:func (*State).httpPrefixGetLog
+//vc:  hypothesis[C17] onlyKeyParam(s.urlPrefix) && secretFree(uri) && apiRE == regexp.MustCompile("[?]key=.*?&")
+//vc:  ensures[C17] @errorTextMasked err != nil ==> cleanAny(err)
+// independent of the known finding on the clause above: at worst the key parameter of the URL is quoted
+//vc:  ensures[C17] @errorTextAtWorstKeyParam err != nil ==> onlyKeyParam(errText(err))
+
+// login callback of LoadDevice: errors go to errlog.Warning in TryReachableHTTPLogin
+//vc:func (*State).LoadDevice$1
+//vc:  inline
+//vc:  hypothesis[C17] secretFree(name) && secretFree(ip) && secretFree(user)
+//vc:  ensures[C17] @loginErrorClean result != nil ==> cleanAny(result)
